@@ -1927,6 +1927,11 @@ impl<S> Phase<S> {
     pub fn verif_next(&self) -> f64 {
         self.next
     }
+
+    /// Verification hook: the step source this phase was built with.
+    pub fn verif_step(&self) -> &S {
+        &self.step
+    }
 }
 
 impl<S> Phase<S>
